@@ -4,6 +4,7 @@ CONSTANTS
   Modes = {"insert", "append"}
   OwnsAllSet = {FALSE, TRUE}
   Rich = 0
+  WithMaps = FALSE
   MaxLen = 4
   MaxEdits = 1
   EditInApply = TRUE
